@@ -276,7 +276,14 @@ fn dryoc_mlock(data: &[u8]) -> Result<(), std::io::Error> {
         let ret = unsafe { c_mlock(data.as_ptr() as *const c_void, data.len()) };
         match ret {
             0 => Ok(()),
-            _ => Err(std::io::Error::last_os_error()),
+            _ => {
+                let err = std::io::Error::last_os_error();
+                // A failed mlock can leave the range flagged as locked (e.g. when
+                // the pages are PROT_NONE and cannot be faulted in). The caller
+                // keeps treating the region as unlocked, so undo it here.
+                unsafe { libc::munlock(data.as_ptr() as *const c_void, data.len()) };
+                Err(err)
+            }
         }
     }
     #[cfg(windows)]
